@@ -97,6 +97,9 @@ impl SimpleDecoder {
     }
 
     fn schema_fits_record(schema: &crate::records::Schema, value: &[u8]) -> bool {
+        if value.len() < 2 {
+            return false;
+        }
         let header_len = u16::from_le_bytes([value[0], value[1]]) as usize;
         let expected_header = Self::compute_header_len(schema) as usize;
 
@@ -176,6 +179,11 @@ impl SimpleDecoder {
             let view = RecordView::new(value, schema)?;
             (col_count, view)
         } else {
+            eyre::ensure!(
+                value.len() >= 2,
+                "record too short for a header: record_len={}",
+                value.len()
+            );
             let header_len = u16::from_le_bytes([value[0], value[1]]);
             eyre::bail!(
                 "unknown record format: header_len={}, record_len={}",
